@@ -115,6 +115,21 @@ func c20Files(g *gen, allowOdd bool) map[string]gFile {
 	return out
 }
 
+// c20Invalid: a rule the parser rejects (no expr => Rule.Error): provides nothing, depends on nothing, replaces nothing.
+func c20Invalid(g *gen) gRule {
+	ru := c20Rule(g, false)
+	ru.Broken = true
+	ru.Refs, ru.AlertRefs, ru.NameRefs = nil, nil, nil
+	return ru
+}
+
+// c20SyntaxError: a valid rule whose expression does not parse as PromQL: it selects nothing, but it still is a rule of its
+// kind and name (a replacement).
+func c20SyntaxError(ru *gRule) {
+	ru.Expr = "sum(" + ru.Expr
+	ru.Refs, ru.AlertRefs, ru.NameRefs = nil, nil, nil
+}
+
 // ---------------------------------------------------------------------------------------------
 // (a) correspondence
 
@@ -365,6 +380,7 @@ type c20E2E struct {
 	Observed  []c20Warn `json:"observed"`
 	OddSpell  []string  `json:"name_spelling_not_listed,omitempty"`
 	Removed   int       `json:"removed_rules"`
+	NextToInvalid int   `json:"removed_rules_whose_head_file_has_an_invalid_rule"`
 	GitLog    string    `json:"git_log"`
 	HeadFiles map[string]string `json:"-"`
 }
@@ -379,12 +395,28 @@ func c20History(g *gen) *history {
 	r := g.r
 	hi := &history{Origin: map[string]string{}}
 	state := c20Files(g, r.Intn(3) == 0)
+	strata := map[string]bool{}
+	// error strata: unrelated invalid rules (rule-level error) and PromQL syntax errors living in the same files
+	for _, p := range sortedKeys(state) {
+		f := state[p]
+		if r.Intn(4) == 0 {
+			pos := r.Intn(len(f.Rules) + 1)
+			f.Rules = append(f.Rules[:pos:pos], append([]gRule{c20Invalid(g)}, f.Rules[pos:]...)...)
+			strata["fork-file-has-invalid-rule"] = true
+		}
+		for i := range f.Rules {
+			if !f.Rules[i].Broken && r.Intn(15) == 0 {
+				c20SyntaxError(&f.Rules[i])
+				strata["promql-syntax-error"] = true
+			}
+		}
+		state[p] = f
+	}
 	hi.Fork = cloneState(state)
 	for p := range state {
 		hi.Origin[p] = p
 	}
 	nc := 1 + r.Intn(3)
-	strata := map[string]bool{}
 	for ci := 0; ci < nc; ci++ {
 		var ops []hOp
 		nops := 1 + r.Intn(3)
@@ -395,7 +427,14 @@ func c20History(g *gen) *history {
 			}
 			p := pick(r, paths)
 			f := state[p]
-			switch c := r.Intn(10); {
+			switch c := r.Intn(11); {
+			case c == 10: // an unrelated invalid rule appears in the file (rule-level error at HEAD)
+				pos := r.Intn(len(f.Rules) + 1)
+				f = f.clone()
+				f.Rules = append(f.Rules[:pos:pos], append([]gRule{c20Invalid(g)}, f.Rules[pos:]...)...)
+				state[p] = f
+				ops = append(ops, hOp{Op: "add-invalid-rule", Path: p, Detail: fmt.Sprint(pos)})
+				strata["invalid-rule-added"] = true
 			case c <= 4 && len(f.Rules) > 0: // remove a rule
 				i := r.Intn(len(f.Rules))
 				ops = append(ops, hOp{Op: "delete-rule", Path: p, Detail: f.Rules[i].Kind + ":" + f.Rules[i].Name})
@@ -485,6 +524,9 @@ func c20Truth(c *c20E2E) {
 		_, locs := f.render()
 		for i, ru := range f.Rules {
 			headUID[ru.UID] = true
+			if ru.Broken {
+				continue // an invalid rule neither depends on anything nor replaces anything
+			}
 			head = append(head, hr{ru, p, locs[i].Expr})
 		}
 	}
@@ -492,10 +534,20 @@ func c20Truth(c *c20E2E) {
 		f := hi.Fork[p]
 		_, locs := f.render()
 		for i, ru := range f.Rules {
-			if headUID[ru.UID] {
+			if headUID[ru.UID] || ru.Broken {
 				continue
 			}
 			c.Removed++
+			for _, hp := range sortedKeys(hi.Head) {
+				if hi.Origin[hp] == p {
+					for _, x := range hi.Head[hp].Rules {
+						if x.Broken {
+							c.NextToInvalid++
+							break
+						}
+					}
+				}
+			}
 			replaced := false
 			for _, h := range head {
 				if h.ru.Kind == ru.Kind && h.ru.Name == ru.Name {
@@ -647,6 +699,9 @@ func runC20(args []string) int {
 		}
 		rep.hist(fmt.Sprintf("b:expected-warnings=%d", min(len(c.Expected), 4)))
 		rep.hist(fmt.Sprintf("b:removed-rules=%d", min(c.Removed, 6)))
+		if c.NextToInvalid > 0 {
+			rep.hist("b:removed-rule-whose-head-file-has-an-invalid-rule")
+		}
 		for _, w := range c.Expected {
 			rep.hist(fmt.Sprintf("b:dependants-listed=%d", min(len(w.Deps), 5)))
 		}
